@@ -97,7 +97,7 @@ CONSTANTS MaxOps,     \* bound on the history length
 Init == seqs = << <<>> >> /\ attached = {0} /\ hist = <<>>
 Next ==
   /\ Len(hist) < MaxOps
-  /\ \/ \E sq \in SeqIds, pos \in 0..MaxPos, kind \in {"set32", "set64", "getp"} : pos \in Positions(sq) /\ Unit(sq, pos, kind, Len(hist) + 1)
+  /\ \/ \E sq \in SeqIds, pos \in 0..MaxPos, kind \in UnitKinds : pos \in Positions(sq) /\ Unit(sq, pos, kind, Len(hist) + 1)
      \/ \E sq \in SeqIds, pos \in 0..MaxPos, kind \in {"block", "loop"} : pos \in Positions(sq) /\ NewBlock(sq, pos, kind)
      \/ \E sq \in SeqIds, pos \in 0..MaxPos : pos \in Positions(sq) /\ NewIfElse(sq, pos)
      \/ NewDangling
